@@ -3,6 +3,7 @@ Helper lemmas for C09 (cluster update as a relation): decider soundness/complete
 skeleton preservation, weight preservation, symmetry, consistency preservation.
 -/
 import QmcModel.Cluster
+import QmcProofs.Common
 
 namespace Qmc
 
@@ -331,20 +332,7 @@ theorem xorB_cancel : ∀ (x y z : List Bool), y.length = x.length → z.length 
       have := h.1; revert this; cases a <;> cases b <;> cases c <;> simp
     rw [hh, ht]
 
-theorem writeVars_length (vars : List Nat) : ∀ (vals : List Bool) (st : List Bool),
-    (writeVars st vars vals).length = st.length := by
-  induction vars with
-  | nil => intro vals st; simp [writeVars]
-  | cons v vs ih =>
-    intro vals st
-    cases vals with
-    | nil => simp [writeVars]
-    | cons x xs =>
-      have := ih xs (st.set v x)
-      simp only [writeVars, List.zip_cons_cons, List.foldl_cons] at this ⊢
-      rw [this]; simp
-
-theorem writeVars_xor (vars : List Nat) : ∀ (bo ao sB sA : List Bool), bo.length = ao.length →
+theorem writeVars_xorB (vars : List Nat) : ∀ (bo ao sB sA : List Bool), bo.length = ao.length →
     xorB (writeVars sB vars bo) (writeVars sA vars ao) = writeVars (xorB sB sA) vars (xorB bo ao) := by
   induction vars with
   | nil => intro bo ao sB sA _; simp [writeVars]
@@ -416,11 +404,11 @@ theorem applyOp_xor {fr : SkOp → Bool} {ob oa : Op} (h : OpOk fr ob oa) {sB sA
       · rw [← hb, writeVars_length, writeVars_length, hl]
       · rw [← hb, ← hm, h.vars]
         simp only [maskOp]
-        exact writeVars_xor ob.vars ob.outs oa.outs sB sA (by rw [h.outsB, h.outsA])
+        exact writeVars_xorB ob.vars ob.outs oa.outs sB sA (by rw [h.outsB, h.outsA])
     · cases hm
   · cases hb
 
-theorem propagate_xor {fr : SkOp → Bool} :
+theorem propagate_xorB {fr : SkOp → Bool} :
     ∀ {sb sa : Slots}, PairAll (OpOk fr) sb sa → ∀ {sB sA sB' M' : List Bool},
       sA.length = sB.length → propagate sB sb = some sB' →
       propagate (xorB sB sA) (maskSlots sb sa) = some M' →
@@ -434,7 +422,7 @@ theorem propagate_xor {fr : SkOp → Bool} :
   | none :: tb, none :: ta, h', sB, sA, sB', M', hl, hb, hm => by
     simp only [PairAll] at h'
     simp only [propagate, maskSlots] at hb hm ⊢
-    exact propagate_xor h' hl hb hm
+    exact propagate_xorB h' hl hb hm
   | none :: tb, some _ :: ta, h', _, _, _, _, _, _, _ => by simp [PairAll] at h'
   | some _ :: tb, none :: ta, h', _, _, _, _, _, _, _ => by simp [PairAll] at h'
   | some ob :: tb, some oa :: ta, h', sB, sA, sB', M', hl, hb, hm => by
@@ -452,7 +440,7 @@ theorem propagate_xor {fr : SkOp → Bool} :
         rw [ha1]
         simp only
         subst hx1
-        exact propagate_xor h'.2 hl1 hb hm
+        exact propagate_xorB h'.2 hl1 hb hm
 
 theorem ClusterMove.consistent {fr : SkOp → Bool} {b a : Config} (h : ClusterMove fr b a)
     (hb : Consistent b) : Consistent a := by
@@ -460,7 +448,7 @@ theorem ClusterMove.consistent {fr : SkOp → Bool} {b a : Config} (h : ClusterM
   have hm := h.linkClosed
   unfold Consistent at hm
   simp only [mask] at hm
-  obtain ⟨sA', ha, hl, hx⟩ := propagate_xor h.ops h.stateLen hb hm
+  obtain ⟨sA', ha, hl, hx⟩ := propagate_xorB h.ops h.stateLen hb hm
   have : sA' = a.state := xorB_cancel b.state sA' a.state hl h.stateLen hx
   rw [ha, this]
 
@@ -691,15 +679,15 @@ theorem propagate_link (v : Nat) (o : Op) (t : Slots) (st st' : List Bool) (x : 
       exact h1
     · cases ha
 
-theorem propagate_append : ∀ (pre s : Slots) (st : List Bool),
+theorem propagate_append_bind : ∀ (pre s : Slots) (st : List Bool),
     propagate st (pre ++ s) = (propagate st pre).bind (fun st1 => propagate st1 s)
   | [], s, st => by simp [propagate]
-  | none :: t, s, st => by simp only [List.cons_append, propagate]; exact propagate_append t s st
+  | none :: t, s, st => by simp only [List.cons_append, propagate]; exact propagate_append_bind t s st
   | some o :: t, s, st => by
     simp only [List.cons_append, propagate]
     cases applyOp st o with
     | none => simp
-    | some st1 => exact propagate_append t s st1
+    | some st1 => exact propagate_append_bind t s st1
 
 theorem maskSlots_shape {fr : SkOp → Bool} : ∀ {sb sa : Slots}, PairAll (OpOk fr) sb sa →
     ∀ m ∈ opsOf (maskSlots sb sa), m.ins.length = m.vars.length ∧ m.outs.length = m.vars.length
@@ -741,12 +729,12 @@ theorem ClusterMove.link {fr : SkOp → Bool} {b a : Config} (h : ClusterMove fr
   -- run the string twice
   have h2 : propagate (xorB b.state a.state) (maskSlots b.slots a.slots ++ maskSlots b.slots a.slots) =
       some (xorB b.state a.state) := by
-    rw [propagate_append, hc]; exact hc
+    rw [propagate_append_bind, hc]; exact hc
   have hsplit : maskSlots b.slots a.slots ++ maskSlots b.slots a.slots =
       pre ++ (some m :: (t ++ maskSlots b.slots a.slots)) := by
     conv => lhs; arg 1; rw [hm]
     simp
-  rw [hsplit, propagate_append] at h2
+  rw [hsplit, propagate_append_bind] at h2
   cases hp : propagate (xorB b.state a.state) pre with
   | none => rw [hp] at h2; cases h2
   | some st1 =>
